@@ -164,6 +164,7 @@ func (cf *CaseFile) Add(term string, replay any) {
 }
 
 const shard = 400
+const shardBytes = 400 << 10
 
 // Finish writes result.json and the sharded cases_*.v files.
 func (c *Ctx) Finish() error {
@@ -180,12 +181,17 @@ func (c *Ctx) Finish() error {
 		if cf.Shard > 0 {
 			shard = cf.Shard
 		}
-		for off := 0; off < len(cf.Terms); off += shard {
-			end := off + shard
-			if end > len(cf.Terms) {
-				end = len(cf.Terms)
+		// a shard holds at most [shard] cases and about [shardBytes] bytes of terms: coqc reads one list
+		// literal per file, and very long literals cost it stack and memory
+		nfile := 0
+		for off := 0; off < len(cf.Terms); {
+			end, bytes := off, 0
+			for end < len(cf.Terms) && end-off < shard && (end == off || bytes+len(cf.Terms[end]) <= shardBytes) {
+				bytes += len(cf.Terms[end])
+				end++
 			}
-			fn := fmt.Sprintf("%s_%d.v", cf.Name, off/shard)
+			fn := fmt.Sprintf("%s_%d.v", cf.Name, nfile)
+			nfile++
 			var b strings.Builder
 			b.WriteString("From Coq Require Import List ZArith NArith String.\nImport ListNotations.\n")
 			b.WriteString(cf.Header)
@@ -203,6 +209,7 @@ func (c *Ctx) Finish() error {
 				return err
 			}
 			shards = append(shards, shardInfo{File: fn, Name: cf.Name, Offset: off, N: end - off, Replays: cf.Replays[off:end]})
+			off = end
 		}
 	}
 	keys := make([]string, 0, len(c.distinct))
